@@ -73,6 +73,30 @@ def translate():
     return errs
 
 
+def gen_files_of(prop):
+    """the Gen/*.v files the Props files of a property depend on (transitively), read from coqdep's output"""
+    dep = os.path.join(COQ, '.Makefile.d')
+    if not os.path.exists(dep):
+        return None
+    graph = {}
+    for line in open(dep).read().replace('\\\n', ' ').split('\n'):
+        if ':' not in line:
+            continue
+        lhs, rhs = line.split(':', 1)
+        deps = [d for d in rhs.split() if d.endswith('.vo')]
+        for t in lhs.split():
+            if t.endswith('.vo'):
+                graph.setdefault(t, set()).update(deps)
+    seen, todo = set(), ['theories/Props/%s.vo' % f for f in prop_files(prop)] + ['theories/Extract/Extract.vo']
+    while todo:
+        t = todo.pop()
+        if t in seen:
+            continue
+        seen.add(t)
+        todo.extend(graph.get(t, ()))
+    return sorted(os.path.basename(t)[:-1] for t in seen if t.startswith('theories/Gen/'))
+
+
 def coq_make(targets, timeout=2400):
     """full .vo build of the given targets; returns (ok, log)"""
     with Lock('coq'):
@@ -215,34 +239,36 @@ def print_assumptions(prop, names):
 CORE = os.path.join(COQ, 'core')
 
 
-def core_tie(timeout=1200):
-    """The SECOND tie between model and code: tools/translate_core.py regenerates Gallina definitions of the reader
-    logic (lib.rs fill_buf/trim_cr, the methods of both `impl Reader`) from the repository, and coq/core/CoreGenP.v
-    proves each of them equal to the hand-written model function.  Returns {'status': 'equal' | 'differs' |
-    'untranslatable' | 'unavailable', 'detail': ..}.  (The first tie is the differential correspondence run.)"""
-    tc = os.path.join(ROOT, 'tools', 'translate_core.py')
-    if not os.path.exists(tc) or not os.path.isdir(CORE):
-        return {'status': 'unavailable', 'detail': 'no core translator in this tree'}
+def core_tie(timeout=1200, kind='reader'):
+    """The SECOND tie between model and code, by translators that regenerate Gallina definitions from the repository,
+    each proved equal to the hand-written model function in coq/core/*GenP.v:
+      kind='reader': tools/translate_core.py (lib.rs fill_buf/trim_cr, every method of both `impl Reader`) and
+                     tools/translate_views.py (record views, SeqLines, owned copies, writer loops, set / owned iterators);
+      kind='par':    tools/translate_par.py (the worker and consumer closures of the per-record functions of parallel.rs,
+                     the generic parallel_records, ParallelRecordsets::next) against Model/Par.v.
+    Returns {'status': 'equal' | 'differs' | 'untranslatable' | 'unavailable', 'detail': ..}.  (The first tie is the
+    differential correspondence run.)"""
+    plan = {'reader': [('translate_core.py', 'TRANSLATE-CORE-ERROR', ['CoreGen.v']),
+                       ('translate_views.py', 'TRANSLATE-VIEWS-ERROR', ['ViewsGen.v', 'RecordsGen.v'])],
+            'par': [('translate_par.py', 'TRANSLATE-PAR-ERROR', ['ParGen.v'])]}[kind]
+    proofs = {'reader': ['CoreGenP.v', 'ViewsGenP.v', 'RecordsGenP.v'], 'par': ['ParGenP.v']}[kind]
+    if not os.path.exists(os.path.join(ROOT, 'tools', plan[0][0])) or not os.path.isdir(CORE):
+        return {'status': 'unavailable', 'detail': 'no translator of this kind in this tree'}
     with Lock('coq'):
         tmp = os.path.join(WORK, 'coregen')
         os.makedirs(tmp, exist_ok=True)
-        rc, out = run([sys.executable, tc, REPO, tmp], timeout=300)
-        errs = [l for l in out.split('\n') if 'TRANSLATE-CORE-ERROR' in l]
-        gen = os.path.join(tmp, 'CoreGen.v')
-        if rc != 0 or errs or not os.path.exists(gen):
-            return {'status': 'untranslatable', 'detail': (errs[0] if errs else out[-300:])[:400]}
-        cur = os.path.join(CORE, 'CoreGen.v')
-        new = open(gen).read()
-        if not os.path.exists(cur) or open(cur).read() != new:
-            open(cur, 'w').write(new)
-        # record views, SeqLines, id/desc, writer loops, record-set and owned iterators (tools/translate_views.py)
-        tv = os.path.join(ROOT, 'tools', 'translate_views.py')
-        if os.path.exists(tv):
-            rc, out = run([sys.executable, tv, REPO, tmp], timeout=300)
-            errs = [l for l in out.split('\n') if 'TRANSLATE-VIEWS-ERROR' in l]
-            if rc != 0 or errs:
+        for script, marker, outs in plan:
+            sp = os.path.join(ROOT, 'tools', script)
+            if not os.path.exists(sp):
+                continue
+            for fn in outs:
+                if os.path.exists(os.path.join(tmp, fn)):
+                    os.unlink(os.path.join(tmp, fn))
+            rc, out = run([sys.executable, sp, REPO, tmp], timeout=300)
+            errs = [l for l in out.split('\n') if marker in l]
+            if rc != 0 or errs or not os.path.exists(os.path.join(tmp, outs[0])):
                 return {'status': 'untranslatable', 'detail': (errs[0] if errs else out[-300:])[:400]}
-            for fn in ('ViewsGen.v', 'RecordsGen.v'):
+            for fn in outs:
                 g = os.path.join(tmp, fn)
                 if os.path.exists(g):
                     c = os.path.join(CORE, fn)
@@ -252,11 +278,12 @@ def core_tie(timeout=1200):
         cp = os.path.join(CORE, '_CoqProject')
         if not os.path.exists(mk) or os.path.getmtime(mk) < os.path.getmtime(cp):
             run(['coq_makefile', '-f', '_CoqProject', '-o', 'Makefile'], cwd=CORE)
-        rc, out = run(['make'], cwd=CORE, timeout=timeout)
+        targets = [f[:-2] + '.vo' for f in proofs if os.path.exists(os.path.join(CORE, f))]
+        rc, out = run(['make'] + targets, cwd=CORE, timeout=timeout)
         if rc != 0 and 'inconsistent assumptions' in out:
             # the main project was rebuilt underneath: compile the sub-project from scratch
             run(['make', 'clean'], cwd=CORE)
-            rc, out = run(['make'], cwd=CORE, timeout=timeout)
+            rc, out = run(['make'] + targets, cwd=CORE, timeout=timeout)
         if rc != 0:
             m = re.search(r'File "\./(\w+GenP)\.v", line (\d+)', out)
             lemma = ''
@@ -269,9 +296,9 @@ def core_tie(timeout=1200):
             return {'status': 'differs', 'detail': ('equality %s no longer checks: ' % lemma if lemma else '') + out[-300:].replace('\n', ' ')[:300]}
         if 'Axioms:' in out or 'Admitted' in out:
             return {'status': 'differs', 'detail': 'an equality lemma of coq/core depends on an axiom: ' + out[-200:]}
-        nlem = sum(len(re.findall(r'^\s*(?:Lemma|Theorem)\s+gen_\w+', open(os.path.join(CORE, f)).read(), re.M))
-                   for f in ('CoreGenP.v', 'ViewsGenP.v', 'RecordsGenP.v') if os.path.exists(os.path.join(CORE, f)))
-        return {'status': 'equal', 'detail': '%d equalities between definitions generated from the source and the model (coq/core/*GenP.v)' % nlem}
+        nlem = sum(len(re.findall(r'^\s*(?:Lemma|Theorem)\s+\w+', open(os.path.join(CORE, f)).read(), re.M))
+                   for f in proofs if os.path.exists(os.path.join(CORE, f)))
+        return {'status': 'equal', 'detail': '%d lemmas relating definitions generated from the source to the model (coq/core: %s)' % (nlem, ' '.join(proofs))}
 
 
 def coqchk(prop, timeout=3000):
@@ -320,7 +347,11 @@ def run_rh(path, exe, ncases):
         guard += 1
         sub = path + '.part%d' % start
         open(sub, 'w').write('\n'.join(lines[start:]) + '\n')
-        p = subprocess.run([exe, sub], stdout=subprocess.PIPE, stderr=subprocess.PIPE, env=ENV)
+        try:
+            p = subprocess.run([exe, sub], stdout=subprocess.PIPE, stderr=subprocess.PIPE, env=ENV, timeout=1800)
+        except subprocess.TimeoutExpired as e:
+            # the harness's own watchdog did not fire (should not happen): treated like a crash of the harness
+            p = subprocess.CompletedProcess(e.cmd, -9, e.stdout or b'', e.stderr or b'')
         os.unlink(sub)
         blocks = parse_blocks(p.stdout.decode('utf-8', 'replace'))
         if p.returncode == 0:
@@ -351,6 +382,8 @@ def run_cases(cases, tag, model=True, impl=True, rh_exe=None):
     os.makedirs(d, exist_ok=True)
     rh_exe = rh_exe or os.path.join(HARNESS, 'target', 'debug', 'rh')
     drv = os.path.join(OCAML, 'model_driver')
+    if not cases:
+        return []
     shards = shard(cases, NPROC)
     procs = []
     for i, sh in enumerate(shards):
